@@ -224,6 +224,13 @@ def dict_method(m: Any, cell: Any, name: str, args: list[V], kwargs: dict[str, V
         if isinstance(args[1], VNone):
             return o
         raise EngineError("dict.pop with non-None default")
+    if name == "setdefault" and len(args) == 2:
+        # d.setdefault(k, v): keep the present value, otherwise store v; returns the value now stored
+        if m.ctx.branch(dict_contains(m, cell, args[0])):
+            o = dict_lookup(cell, args[0])
+            return o.sort.elem.wrap(o.sort.val(o.term))
+        dict_store(m, cell, args[0], args[1])
+        return ms.val.coerce(args[1])
     if name == "keys":
         return dict_keys(m, cell)
     if name == "items":
